@@ -338,42 +338,42 @@ def plan(ctx, kind):
     if kind == "p2p":
         small = dict(N=3, F=1, TP=0, TC=1, TG=0, Orders='{"pc"}')
         walk = dict(N=4, F=2, TP=2, TC=6, TG=1, Orders='{"pc", "cp"}')
-        bfs = gen(ctx, "Gen_P2P", P2P_CONST, dict(W=2, **small), 8 if quick else 11, tag="bfs-w2", timeout=1500)
-        sim = {2: gen(ctx, "Gen_P2P", P2P_CONST, dict(W=2, **walk), 30, simulate="num=%d" % (40 if quick else 700), tag="sim-w2",
-                      timeout=1500, cap=220 if quick else 4000)}
+        bfs = gen(ctx, "Gen_P2P", P2P_CONST, dict(W=2, **small), 8 if quick else 10, tag="bfs-w2", timeout=1500)
+        sim = {2: gen(ctx, "Gen_P2P", P2P_CONST, dict(W=2, **walk), 30, simulate="num=%d" % (40 if quick else 300), tag="sim-w2",
+                      timeout=1500, cap=220 if quick else 1500)}
         for W in ([other] if quick else [1, 3]):
-            sim[W] = gen(ctx, "Gen_P2P", P2P_CONST, dict(W=W, **walk), 30, simulate="num=%d" % (25 if quick else 400),
-                         tag="sim-w%d" % W, timeout=1500, cap=120 if quick else 2500)
+            sim[W] = gen(ctx, "Gen_P2P", P2P_CONST, dict(W=W, **walk), 30, simulate="num=%d" % (25 if quick else 200),
+                         tag="sim-w%d" % W, timeout=1500, cap=120 if quick else 1000)
         if len(bfs) < 300 or any(len(v) < 30 for v in sim.values()):
             raise vlib.Infra("behaviour generation produced too little (%d exhaustive, %s random)" % (len(bfs), {k: len(v) for k, v in sim.items()}))
         ctx.log("behaviours: %d exhaustive (W=2, N=3), random walks %s (N=4)" % (len(bfs), {k: len(v) for k, v in sim.items()}))
         for W, b in sim.items():
             plans.append(dict(W=W, tag="w%d" % W, groups=([(3, bfs)] if W == 2 else []) + [(4, b)],
-                              free_runs=(15 if quick else 200), free_n=3 + 2 * W))
+                              free_runs=(15 if quick else 100), free_n=3 + 2 * W))
         # chunking on: message k needs Chunks[k] chunks of 1024 bytes (real payloads of that size)
         chunked = [("Ch212", 2, "2,1,2"), ("Ch132", 3, "1,3,2")]
         for name, W, pattern in ([chunked[ctx.seed % 2]] if quick else chunked + [("Ch2132", 3, "2,1,3,2")]):
             n = len(pattern.split(","))
             b = gen(ctx, "Gen_P2PCh", P2P_CONST, dict(W=W, N=n, Chunks=name, F=2, TP=2, TC=6, TG=1, Orders='{"pc", "cp"}'), 34,
-                    simulate="num=%d" % (25 if quick else 500), tag="sim-%s" % name, timeout=1500, cap=110 if quick else 3000)
+                    simulate="num=%d" % (25 if quick else 200), tag="sim-%s" % name, timeout=1500, cap=110 if quick else 1000)
             if len(b) < 30:
                 raise vlib.Infra("behaviour generation produced too little for %s (%d)" % (name, len(b)))
             ctx.log("behaviours with chunking %s (W=%d): %d random walks" % (pattern, W, len(b)))
-            plans.append(dict(W=W, tag=name.lower(), kind="p2pch", chunks=pattern, groups=[(n, b)], free_runs=(8 if quick else 120), free_n=n))
+            plans.append(dict(W=W, tag=name.lower(), kind="p2pch", chunks=pattern, groups=[(n, b)], free_runs=(8 if quick else 60), free_n=n))
     else:
         small = dict(N=2, F=1, TP=0, TC=1, TG=0, Initial="Init1", Leavers='{"w1"}', Workers=W2)
         walk = dict(N=4, F=2, TP=2, TC=6, TG=1, Initial="Init2", Leavers='{"w1", "w2"}', Workers=W3)
         walk1 = dict(N=4, F=2, TP=2, TC=6, TG=1, Initial="Init1", Leavers='{"w1", "w2"}', Workers=W3)
-        bfs = gen(ctx, "Gen_WP", WP_CONST, dict(W=1, **small), 5 if quick else 7, tag="bfs-w1", timeout=1500)
-        sim = {2: gen(ctx, "Gen_WP", WP_CONST, dict(W=2, **walk), 36, simulate="num=%d" % (40 if quick else 700), tag="sim-w2",
-                      timeout=1500, cap=200 if quick else 4000)}
+        bfs = gen(ctx, "Gen_WP", WP_CONST, dict(W=1, **small), 5 if quick else 6, tag="bfs-w1", timeout=1500)
+        sim = {2: gen(ctx, "Gen_WP", WP_CONST, dict(W=2, **walk), 36, simulate="num=%d" % (40 if quick else 300), tag="sim-w2",
+                      timeout=1500, cap=200 if quick else 1500)}
         for W in ([other] if quick else [1, 3]):
-            sim[W] = gen(ctx, "Gen_WP", WP_CONST, dict(W=W, **walk1), 34, simulate="num=%d" % (25 if quick else 400),
-                         tag="sim-w%d" % W, timeout=1500, cap=100 if quick else 2500)
+            sim[W] = gen(ctx, "Gen_WP", WP_CONST, dict(W=W, **walk1), 34, simulate="num=%d" % (25 if quick else 200),
+                         tag="sim-w%d" % W, timeout=1500, cap=100 if quick else 1000)
         if len(bfs) < 200 or any(len(v) < 30 for v in sim.values()):
             raise vlib.Infra("behaviour generation produced too little (%d exhaustive, %s random)" % (len(bfs), {k: len(v) for k, v in sim.items()}))
         ctx.log("behaviours: %d exhaustive (W=1, N=2, two workers), random walks %s (N=4, three workers)" % (len(bfs), {k: len(v) for k, v in sim.items()}))
         for W, b in sim.items():
-            plans.append(dict(W=W, tag="w%d" % W, groups=[(4, b)], free_runs=(12 if quick else 150), free_n=3 + 2 * W))
+            plans.append(dict(W=W, tag="w%d" % W, groups=[(4, b)], free_runs=(12 if quick else 80), free_n=3 + 2 * W))
         plans.append(dict(W=1, tag="bfs", groups=[(2, bfs)], free_runs=0, free_n=0, workers=W2))
     return plans
